@@ -234,6 +234,11 @@ def run(ctx):
             gs = [tuple(g) for g in c["groups"]]
             if ("-m", "ets") in gs and any(g[0] in ("-b", "-r") for g in gs) and c not in cli:
                 cli.append(c)
+        # -agg names the statistic of the score's own per-case quantity: every (-m, -agg) pair of the menu is always tried (after seed C13-j)
+        for c in full:
+            gs = [tuple(g) for g in c["groups"]]
+            if any(g[0] == "-m" for g in gs) and any(g[0] == "-agg" for g in gs) and c not in cli:
+                cli.append(c)
         for c in full:
             need = [g for g in c["groups"] if count.get(tuple(g), 0) < 3]
             if need and c not in cli:
